@@ -16,6 +16,12 @@ run_suite = "--no-suite" not in args
 nproc = 6
 if "-n" in args:
     nproc = int(args[args.index("-n") + 1])
+base = "/tmp/seed3"
+offset = 2
+if "--base" in args:
+    base = args[args.index("--base") + 1]
+if "--offset" in args:
+    offset = int(args[args.index("--offset") + 1])
 specs = [a for a in args if ":" in a]
 
 
@@ -27,11 +33,11 @@ def sh(cmd, cwd=None, env=None, timeout=7200):
 def one(spec):
     parts = spec.split(":")
     ID, K = parts[0], parts[1]
-    DK = parts[2] if len(parts) > 2 else str(int(K) + 2)
-    src = Path(f"/tmp/seed3/{ID}/_out/change{K}")
-    wt = Path(f"/tmp/seed3/{ID}")  # the demos assert that `pde` is imported from this very worktree
+    DK = parts[2] if len(parts) > 2 else str(int(K) + offset)
+    src = Path(f"{base}/{ID}/_out/change{K}")
+    wt = Path(f"{base}/{ID}")  # the demos assert that `pde` is imported from this very worktree
     out = Path(f"/verif/seeded/{ID}-{DK}")
-    meta = {"property": ID, "change": int(DK), "batch": 3, "source": str(src)}
+    meta = {"property": ID, "change": int(DK), "batch": 3 if base.endswith("seed3") else 4, "source": str(src)}
     patch, demo = src / "patch.diff", src / "demo.py"
     assert patch.exists() and demo.exists(), f"{src}: patch.diff / demo.py missing"
     rc, o = sh("git status --porcelain --untracked-files=no", cwd=wt)
